@@ -27,6 +27,9 @@ impl GraphColoredVertices {
     pub fn minus(&self, _o: &Self) -> Self { unimplemented!() }
     pub fn is_empty(&self) -> bool { unimplemented!() }
     pub fn is_subset(&self, _o: &Self) -> bool { unimplemented!() }
+    pub fn approx_cardinality(&self) -> f64 { unimplemented!() }
+    pub fn exact_cardinality(&self) -> u64 { unimplemented!() }
+    pub fn symbolic_size(&self) -> usize { unimplemented!() }
 }
 impl Clone for GraphColoredVertices { fn clone(&self) -> Self { unimplemented!() } }
 impl PartialEq for GraphColoredVertices { fn eq(&self, _o: &Self) -> bool { unimplemented!() } }
